@@ -55,12 +55,14 @@ def main():
     quick = c.tier == 'quick'
     rng = c.rng
     try:
+        tree0, stable = build_pair()
         specs = regen_specs()
     except BuildError as e:
         c.corr_broken.append({'kind': 'harness-build-failed', 'what': e.what, 'output': e.output[-1500:]})
         c.finish()
     targeted_make('C05')
     c.prove()
+    chk = coqchk(c, 'C05') if not quick and not c.proof_broken else 'not run (quick tier)'
     try:
         build_driver()
     except BuildError as e:
@@ -138,15 +140,18 @@ def main():
     # ---------------- (iii) TESTING: race detector, GOMAXPROCS 1 / 2 / 16, bit-for-bit
     race_stats = {'cases': 0, 'gomaxprocs': [], 'data_races': 0}
     try:
-        build_harness(['cellrun'], race=True)
         rb = CELLRUN + '-race'
+        tree_changed = (repo_state() != tree0) or not stable
         rl = [l.rsplit(' ', 1)[0] + ' 0' for l in lines]          # no recorder: its mutex would hide races
         if quick:
             rl = rl[::3][:60]
+        # every fourth case on C-backed arrays (cdata over C.malloc memory)
+        rl = [l.replace(' go ', ' c ') if k % 4 == 3 else l for k, l in enumerate(rl)]
         gmps = [1, 2, 16]
         race_stats['cases'] = len(rl)
         race_stats['gomaxprocs'] = gmps
-        base = {l.rsplit(' ', 1)[0]: d for l, d in digests.items()}
+        base = {l.rsplit(' ', 1)[0]: d for l, d in digests.items()}   # C-backed cases have no plain counterpart: GOMAXPROCS only
+        by_gmp = {}
         for gmp in gmps:
             out, bad = race_run(rb, rl, gmp)
             for (line, kind, err) in bad:
@@ -161,9 +166,16 @@ def main():
                     c.violation('race_run_%d.json' % gmp, {'kind': 'vectorised != single-cell under -race', 'GOMAXPROCS': gmp,
                                                            'case_line': l, 'fails': r['fails']})
                 want = base.get(l.rsplit(' ', 1)[0])
+                if tree_changed:
+                    want = None       # /repo changed while the check ran: plain and -race builds are not comparable
+                by_gmp.setdefault(l, set()).add(r.get('digest'))
                 if want and r.get('digest') != want:
                     c.violation('race_digest_%d.json' % gmp, {'kind': 'result depends on GOMAXPROCS / build', 'GOMAXPROCS': gmp, 'case_line': l,
                                                               'digest': r.get('digest'), 'plain_build_digest': want})
+        for l, ds in by_gmp.items():
+            if len(ds) > 1:
+                c.violation('race_gomaxprocs.json', {'kind': 'result depends on GOMAXPROCS', 'case_line': l, 'digests': sorted(map(str, ds))})
+        race_stats['tree_changed_during_check'] = tree_changed
     except BuildError as e:
         c.assumptions.append('race-detector build unavailable: ' + e.what)
 
@@ -172,7 +184,7 @@ def main():
                      'extracted Coq footprint and checked for pairwise disjointness; non-trivial = more than one cell; (iii) TESTING: the same '
                      'case stream under -race with GOMAXPROCS 1/2/16, results bit-identical to the plain build' % len(gen_files))
     c.finish(extra_cov={'models': len(models), 'closures_analysed': n_closures, 'recorded_accesses': n_acc, 'race_testing': race_stats,
-                        'exhaustive': False},
+                        'exhaustive': False, 'coqchk': chk},
              assumptions=['PARTIAL w.r.t. the Go memory model: the doneChan / simulationDone joins (channel happens-before) are assumed, not modelled',
                           'the race detector samples schedules (testing); all schedules are covered only by the theorem on the footprint model',
                           'ow-sim generation: each model type owns distinct arrays (stated as the address space of the model; runGeneration closure analysed; ow-sim itself is run under -race by the C07 check, the asynchronous writer is C07)',
